@@ -327,6 +327,12 @@ def compare(case, io, mo):
         if ref != sha:
             return ("export #%d differs from the fresh-process run of the sub-history the model says it depends on "
                     "(data %d, options %d, scale trace %r): %s vs %s" % (k, dep[0], dep[1], dep[2], sha[:10], str(ref)[:10]))
+    if io.get("defaults_changed"):
+        # the model assumes that no operation writes a module-level object of the package; a write is
+        # not by itself a violation of the property (a pure memo cache is invisible), so this is a
+        # broken TIE: the search then looks for an export that really differs
+        return ("the history changed module-level state of the labella package (%s): the model's assumption that timelines "
+                "share no module-level object is not established" % ", ".join(io["defaults_changed"][:5]))
     return None
 
 
@@ -338,8 +344,6 @@ def oracle(case, io):
     if io.get("renormalised"):
         return ("constructing a second timeline from the same data list changed the caller's data again "
                 "(the write-back of parse_items is not idempotent): data set(s) %r" % io["renormalised"])
-    if io.get("defaults_changed"):
-        return "the history mutated module-level state of the labella package: %s" % ", ".join(io["defaults_changed"][:5])
     py = case["py"]
     cur = {}
     k = 0
